@@ -18,6 +18,7 @@ def main() -> int:
     ap.add_argument("--replay")
     a = ap.parse_args()
     seed = int(os.environ.get("VERIF_SEED", "0") or 0)
+    os.environ["VERIF_TIER_EFFECTIVE"] = a.tier
     if a.replay:
         from . import replay
         import json
